@@ -39,6 +39,10 @@ def atom_grade(atom, dims, sym):
         kind, arg = sym.defs[atom]
         if isinstance(arg, Rat):
             ga = rat_grade(arg, dims, sym)
+            if ga is None:
+                return None          # argument of unknown dimension
+            if ga == 'zero':
+                return ZERO_G
             if kind == 'sqrt':
                 return _vscale(ga, Fr(1, 2))
             if kind in ('sin', 'cos', 'acos', 'exp'):
@@ -51,6 +55,10 @@ def atom_grade(atom, dims, sym):
         if isinstance(arg, tuple) and kind == 'pow':
             base, ex = arg
             gb = rat_grade(base, dims, sym)
+            if gb is None:
+                return None
+            if gb == 'zero':
+                return ZERO_G
             if ex.is_const():
                 return _vscale(gb, ex.n.constant() / ex.d.constant())
             if gb != ZERO_G:
